@@ -142,6 +142,23 @@ Theorem wsc_pipeline_never_drops : forall opq iw dw b seed epoch idx file a t,
 Proof. exact wsc_pipeline_cp. Qed.
 Print Assumptions wsc_pipeline_never_drops.
 
+(** ** Clean, Normalize, WhitespaceCorruption on the input (C11 + NFKC + C14 composed), code-point mode: when the
+    cleaned text has none of the 52 code points whose compatibility decomposition contains White_Space (the KF3 set;
+    no condition for NFC / NFD), the normalised cleaned text is clean and C14's clauses hold of the pipeline's
+    output relative to it — every form, probabilities, seed; target and info untouched *)
+Theorem clean_normalize_corrupt_c14 : forall opq f iw dw x i,
+  let s1 := clean (singletons (it_in x)) in
+  (match f with NFKC | NFKD => forall c, In c s1 -> ~ In c nfkc_makes_space | _ => True end) ->
+  let t := normalize_model f false s1 in
+  exists c,
+    preproc opq (CChain [CClean PInput false; CNormalize PInput f false; CWsCorrupt PInput iw dw false]) x i
+      = ROk (mk_item c (it_tg x), i)
+    /\ strip_cp c = strip_cp t /\ cleansb t = true /\ cleansb c = true
+    /\ exists ops, operations (singletons c) (singletons t) = Some ops /\ length ops = length c
+                   /\ repair (singletons c) ops = Some t.
+Proof. exact cnw_pipeline_c14. Qed.
+Print Assumptions clean_normalize_corrupt_c14.
+
 (** ** Substrings: the new input is a contiguous run of characters of the old one within the bound, the new target
     a trimmed contiguous piece of the old target, the info is untouched; the chosen index is in range for every seed *)
 Theorem char_substring_within : forall opq n g x i x' i', preproc opq (CCharSub n g) x i = ROk (x', i') ->
@@ -200,6 +217,8 @@ Proof. trivial. Qed.
 Example clean_pair_example : clean (singletons [32;97;32;32;98]%N) = clean (singletons [97;32;98;10]%N)
   /\ cleansb [97;32;98]%N = true /\ corrupt_safe [97;32;98]%N = true.
 Proof. vm_compute. repeat split. Qed.
+Example kf3_free_example : forall c, In c (clean (singletons [97;32;32;64257;98]%N)) -> ~ In c nfkc_makes_space.
+Proof. vm_compute. intros c H. repeat (destruct H as [<-|H]; [intros K; repeat (destruct K as [K|K]; [discriminate K|]); exact K|]). contradiction. Qed.
 Example char_sub_example :
   preproc opq_none (CCharSub 3 false) (mk_item [97;32;98;99;32;100] [97;32;98;99;32;100])%N (mk_info 5 0 [])
   = ROk (mk_item [97;32;98] [97;32;98], mk_info 5 0 [])%N.
